@@ -202,12 +202,14 @@ pub fn generate_trojan(w: &mut dyn Write, seed: u64, thorough: bool) {
             crate::emit_case(w, &args, exec);
             let Some(wire) = r[0].strip_prefix("OK ").map(unhex) else { continue };
             let segs = if ai == 0 || thorough { two_cuts(&mut rng, &wire, 12) } else { two_cuts(&mut rng, &wire, 6).into_iter().step_by(4).collect() };
+            let mut expect = payload.clone();
+            expect.extend_from_slice(&payload);
             for s in segs {
-                crate::emit_case(w, &["trojsrv".to_string(), hex(&pw), dops(&s)], exec);
+                crate::emit_case(w, &["trojsrv".to_string(), hex(&pw), dops(&s), format!("@x={}", hex(&expect))], exec);
             }
             // every truncation, selected mutations (wrong key char incl. non-ASCII, '+' sign, bad CR, bad cmd, bad atyp)
             for cut in 0..wire.len().min(90) {
-                crate::emit_case(w, &["trojsrv".to_string(), hex(&pw), format!("D{}", hex(&wire[..cut]))], exec);
+                crate::emit_case(w, &["trojsrv".to_string(), hex(&pw), format!("D{}", hex(&wire[..cut])), format!("@p={}", hex(&expect))], exec);
             }
             for (pos, val) in [(0usize, 0xc3u8), (1, 0xa9), (0, b'+'), (55, 0xff), (0, b'G'), (10, b'A'), (56, b'\n'), (57, 0), (58, 0), (58, 2), (58, 4), (59, 0), (59, 2), (59, 9)] {
                 if pos < wire.len() {
@@ -216,7 +218,7 @@ pub fn generate_trojan(w: &mut dyn Write, seed: u64, thorough: bool) {
                     crate::emit_case(w, &["trojsrv".to_string(), hex(&pw), format!("D{}", hex(&m))], exec);
                 }
             }
-            crate::emit_case(w, &["trojsrv".to_string(), hex(b"other"), format!("D{}", hex(&wire))], exec);
+            crate::emit_case(w, &["trojsrv".to_string(), hex(b"other"), format!("D{}", hex(&wire)), "@n".to_string()], exec);
         }
         // server -> client udp packets and their segmentations
         if !a.starts_with("D") {
